@@ -54,6 +54,7 @@ Record run := mkRun {
 Inductive spc :=
 | SCheck | SBuild | SClear (r : nat)
 | SOpenA (r : nat) | SOpenSrc (r : nat) | SOpenDlq (r : nat)      (* v2 only *)
+| SRollback (r : nat)                                             (* v2, repaired: Worker.Open's rollback tears the source down *)
 | SSpawn (r : nat) | SPublish (r : nat) | SStatus (r : nat) | SRegister (r : nat).
 
 Inductive cpc :=
@@ -74,7 +75,18 @@ Inductive upc :=
 
 Inductive wpc := WLookup | WJoin (r : nat) | WTerr | WRet (x : retc).
 
-Record cfg := mkCfg { c_engine : engine; c_proc : bool; c_wraps : bool (* force Kill wraps FatalError *) }.
+(* Repairs that were applied to the code; [repaired] is the code as it stands, [shipped] the code as it was
+   found. The old behaviours stay in the model so that the refutations remain statements about them. *)
+Record fixes := mkFixes {
+  f_cad : bool;            (* 838f9f1  v2 cleanup: compare-and-delete of runningPipelines[id] under publishMu *)
+  f_proc_open : bool;      (* 7f15ba5  v2 ProcessorTask.Open tears the processor down when its Open fails *)
+  f_dlq_open : bool;       (* 6946e0c  v2 Worker.Open's rollback tears the source down *)
+  f_force_intent : bool;   (* 9382932  v2 force stop also sets intentionalStop *)
+  f_sync_kill : bool }.    (* 2f2ec4f  v1 node goroutine Kills the tomb before its deferred nodesWg.Done() *)
+Definition repaired : fixes := mkFixes true true true true true.
+Definition shipped : fixes := mkFixes false false false false false.
+
+Record cfg := mkCfg { c_engine : engine; c_proc : bool; c_wraps : bool (* force Kill wraps FatalError *); c_fix : fixes }.
 
 Record st := mkSt {
   s_status : status;
@@ -217,6 +229,8 @@ Definition rw_dead (r : run) (x : res) : run :=
   mkRun PDead (r_src r) (r_kill r) (r_cands r) (r_stop r) (r_shutreq r) (r_intent r) (r_gshut r) (r_started r) (Some x).
 
 Definition is_live (r : run) : bool := match r_phase r with PLive => true | _ => false end.
+Definition src_open (r : run) : bool := match r_src r with SOpen => true | _ => false end.
+Definition is_v1 (c : cfg) : bool := match c_engine c with V1 => true | V2 => false end.
 
 (* ---------- the Start state machine (user call or nested in a cleanup goroutine) ---------- *)
 Inductive sres :=
@@ -244,7 +258,9 @@ Definition start_step (c : cfg) (s : st) (pc : spc) (choice : nat) : sres :=
   | SOpenA i =>      (* v2 sink.Open: shared processors then the destination *)
       match choice with
       | 0 => SNext s (SOpenSrc i) LTau
-      | 1 => if c_proc c then SFin s RetErr (LOpenFail KProc)      (* processor running flag is NOT released *)
+      | 1 => if c_proc c
+             then SFin (if f_proc_open (c_fix c) then rel_proc s i else s) RetErr (LOpenFail KProc)
+                  (* shipped: the processor's running flag is NOT released *)
              else SStuck
       | 2 => SFin (rel_proc s i) RetErr (LOpenFail KDst)
       | _ => (* the destination connector is held by another live run: Destination.Open refuses, no plugin call *)
@@ -263,10 +279,19 @@ Definition start_step (c : cfg) (s : st) (pc : spc) (choice : nat) : sres :=
           | _ => SFin (rel_proc s i) RetErr (LOpenFail KSrc)
           end
       end
-  | SOpenDlq i =>    (* v2 worker.Open: DLQ; on failure the rollback closes the tasks, the source stays open *)
+  | SOpenDlq i =>    (* v2 worker.Open: DLQ; on failure the rollback closes the tasks; shipped: the source stays open *)
       match choice with
       | 0 => SNext s (SSpawn i) LTau
-      | _ => SFin (rel_proc s i) RetErr (LOpenFail KDlq)
+      | _ => if f_dlq_open (c_fix c) then SNext s (SRollback i) (LOpenFail KDlq)
+             else SFin (rel_proc s i) RetErr (LOpenFail KDlq)
+      end
+  | SRollback i =>
+      match get_run s i with
+      | None => SStuck
+      | Some r =>
+          if src_open r && onat_eqb (s_guard s) (Some i)
+          then SFin (rel_proc (upd_run (with_guard s None) i (rw_src r SClosed)) i) RetErr LTd
+          else SStuck
       end
   | SSpawn i =>
       match get_run s i with
@@ -296,14 +321,13 @@ Definition start_step (c : cfg) (s : st) (pc : spc) (choice : nat) : sres :=
       end
   end.
 
-Definition is_v1 (c : cfg) : bool := match c_engine c with V1 => true | V2 => false end.
 
 (* v1 records a node's error on the tomb only AFTER the node's deferred nodesWg.Done() (tomb.v2 calls
    Kill(err) in its own bookkeeping once the goroutine function has returned; v2 Kills synchronously
    before Done for exactly this reason): the cleanup goroutine can read tomb.Err() while the error that
    ended the run has not reached the tomb yet. A force stop Kills inside the Stop call and is never late. *)
 Definition late_read (c : cfg) (r : run) (choice : nat) : bool :=
-  is_v1 c && match choice with 0 => false | _ => true end
+  is_v1 c && negb (f_sync_kill (c_fix c)) && match choice with 0 => false | _ => true end
   && match r_kill r with Some CaForce | None => false | Some _ => true end.
 
 (* ---------- cleanup goroutine of run i ---------- *)
@@ -361,7 +385,7 @@ Definition clean_step (c : cfg) (s : st) (i : nat) (choice : nat) : option (st *
       | CTail2 e =>
           match c_engine c with
           | V1 => goto (if onat_eqb (s_map s) (Some i) then with_map s None else s) (CTail3 e) LTau
-          | V2 => goto (with_map s None) (CTail3 e) LTau
+          | V2 => goto (if f_cad (c_fix c) && negb (onat_eqb (s_map s) (Some i)) then s else with_map s None) (CTail3 e) LTau
           end
       | CTail3 e =>
           Some (finish_clean s i r e, match e with ResNil => LTau | _ => LNotify e end)
@@ -408,7 +432,8 @@ Definition user_step (c : cfg) (s : st) (choice : nat) : option (st * label) :=
                 end in
               match m with
               | MForce =>
-                  let r' := match r_phase r with PDead => r | _ => rw_kill r CaForce end in
+                  let r0 := match r_phase r with PDead => r | _ => rw_kill r CaForce end in
+                  let r' := if negb (is_v1 c) && f_force_intent (c_fix c) then rw_intent r0 else r0 in
                   after (upd_run s i r') RetNil LTau
               | _ =>
                   match c_engine c with
@@ -500,7 +525,6 @@ Definition call_step (c : cfg) (s : st) (k : ckind) (id : nat) : option (st * la
 Fixpoint remove_cause (c : cause) (l : list cause) : list cause :=
   match l with [] => [] | x :: t => if cause_eqb x c then t else x :: remove_cause c t end.
 
-Definition src_open (r : run) : bool := match r_src r with SOpen => true | _ => false end.
 Definition src_init (r : run) : bool := match r_src r with SInit => true | _ => false end.
 Definition ending (r : run) : bool := r_stop r || match r_kill r with Some _ => true | None => false end.
 Definition is_ended (r : run) : bool := match r_phase r with PEnded => true | _ => false end.
@@ -588,8 +612,10 @@ Fixpoint run_acts (c : cfg) (s : st) (l : list act) : option st :=
 (* ---------- state predicates used by the theorems ---------- *)
 Definition n_open (s : st) : nat := length (filter (fun i => src_open (s_runs s i)) (seq 0 (s_next s))).
 
-Definition cfg_v1 (proc : bool) : cfg := mkCfg V1 proc true.
-Definition cfg_v2 (proc : bool) : cfg := mkCfg V2 proc true.
+Definition cfg_v1 (proc : bool) : cfg := mkCfg V1 proc true repaired.
+Definition cfg_v2 (proc : bool) : cfg := mkCfg V2 proc true repaired.
+Definition cfg_v1_shipped (proc : bool) : cfg := mkCfg V1 proc true shipped.
+Definition cfg_v2_shipped (proc : bool) : cfg := mkCfg V2 proc true shipped.
 
 (* labels produced by a list of actions (None when an action is not enabled) *)
 Fixpoint trace (c : cfg) (s : st) (l : list act) : option (list label * st) :=
